@@ -1219,6 +1219,13 @@ def c17(tier, seed):
                 except Exception as e:      # noqa
                     bad.append('loading twice through one ParserFilter object raised %s: %s' % (type(e).__name__, e))
         ops = []
+        if D.meta.get('colliding_names') and len(taxa) >= 3:
+            # names whose concatenations coincide for different pairs: every lineage pair is compared, on either analysis
+            # (r13-C17a / C06a / C07b: comparison caches keyed by joined names)
+            lp_ = [(a_, d_) for a_ in taxa for d_ in taxa if len(a_) < len(d_) and d_[:len(a_)] == a_]
+            ex.rng.shuffle(lp_)
+            ops += [[0, 'v', a_, d_] for a_, d_ in lp_[:30]]
+            ex.res.count('cases_with_colliding_names')
         nops = ex.rng.randint(5, 40 if tier == 'thorough' else 25)
         for _ in range(nops):
             kind = ex.rng.choice(['v', 'v', 'vrel', 'vrel', 'l', 'tp', 'tph', 'tph', 'tph', 'iham', 'iham', 'clust', 'lookup', 'gname', 'nav', 'atlevel', 'repeat',
@@ -1316,11 +1323,16 @@ def c17(tier, seed):
                     x = byk[op[2]]
                     vis = h.create_iHam(x)
                     from lxml import etree
-                    root = etree.fromstring(vis.orthoxml.get_orthoxml_str().encode())
-                    ns = '{http://orthoXML.org/2011/}'
-                    sp = sorted(x.get('name') + ':' + ','.join(sorted(g.get('id') for g in x.iter(ns + 'gene'))) for x in root.findall(ns + 'species'))
-                    pgatt = sorted(str(sorted(x_.attrib.items())) for x_ in root.iter(ns + 'paralogGroup'))      # (labels written on paralogGroups)
-                    return 'iham ' + vis.famdata + vis.newick_str + ' '.join(sorted(ob.xml_struct(c) for c in root.find(ns + 'groups'))) + ';'.join(sp) + str(pgatt)
+                    def ri_():
+                        # (rendered from the RETURNED page object, now and again after the whole call sequence: r13-C17b, one XML
+                        # element per gene shared between the documents of all pages)
+                        root = etree.fromstring(vis.orthoxml.get_orthoxml_str().encode())
+                        ns = '{http://orthoXML.org/2011/}'
+                        sp = sorted(x.get('name') + ':' + ','.join(sorted(g.get('id') for g in x.iter(ns + 'gene'))) for x in root.findall(ns + 'species'))
+                        pgatt = sorted(str(sorted(x_.attrib.items())) for x_ in root.iter(ns + 'paralogGroup'))      # (labels written on paralogGroups)
+                        return 'iham ' + vis.famdata + vis.newick_str + ' '.join(sorted(ob.xml_struct(c) for c in root.find(ns + 'groups'))) + ';'.join(sp) + str(pgatt)
+                    keep.append(ri_)
+                    return ri_()
                 if kind == 'nav':
                     x = byk[op[2]]
                     return 'nav ' + ','.join(sorted(g.unique_id for g in x.get_all_descendant_genes())) + '|' + ob.keysS(x.get_all_descendant_hogs())
